@@ -70,6 +70,14 @@ class Modules:
 
 def role_data(seed, role, limb, n, bits):
     g = np.random.default_rng([seed & 0x7FFFFFFF, {"a": 1, "b": 2, "r": 3}[role], limb, n])
+    u = g.random()
+    if role != "r":                      # source limbs: now and then the zero polynomial, a constant power of two, or the extreme values
+        if u < 0.10:
+            return np.zeros(n, dtype=np.int64)
+        if u < 0.16:
+            return np.full(n, (1 << int(g.integers(0, bits))) * (1 if u < 0.13 else -1), dtype=np.int64)
+        if u < 0.22:
+            return np.where(g.random(n) < 0.5, (1 << bits) - 1, -(1 << bits)).astype(np.int64)
     return g.integers(-(1 << bits), 1 << bits, n, dtype=np.int64)
 
 
